@@ -72,10 +72,6 @@ verus! {
                         assert(bytes@ =~= enc_item(keyspace_id, key@, value@, value_type, compression));
                         assert(self.state().items =~= s0.items.push(ItemV { keyspace_id, key: key@, value: value@, value_type }));
                     }
-//@proof after self.cleared_keyspaces.push
-                    proof {
-                        assert(bytes@ =~= enc_clear(keyspace_id));
-                    }
 //@proof after std::mem::take(&mut self.cleared_keyspaces)
                     proof {
                         assert(self.state().items =~= Seq::<ItemV>::empty());
